@@ -2,7 +2,7 @@
 from .. import explore, streams
 from ..core import Check, Space
 
-DERIVE = ["Select", "Where", "SelectMany", "Select2", "SelectAst", "SelectCall", "MD0", "MD1", "QMD", "Awk"]
+DERIVE = ["Select", "Where", "SelectMany", "Select2", "SelectSame", "SelectAst", "SelectCall", "MD0", "MD1", "QMD", "Awk"]
 DERIVE_T = DERIVE + ["TTree", "Pandas", "Parquet", "WhereCall"]
 EXEC = ["Value"]
 EXEC_T = ["Value", "ValueAsync", "ValueT"]
@@ -13,7 +13,7 @@ class Model:
         self.derive, self.execs = derive, execs
 
     def fresh(self):
-        return streams.World(1, 1)
+        return streams.World(1, 1, 1)
 
     def enabled(self, w):
         ops = []
@@ -79,11 +79,17 @@ class C11(Check):
                               [(mname, depth, p) for p in _prefixes(m, plen)]), runner="run_prefix"))
         return out
 
+    def pair_menu(self, tier):
+        """every depth-2 subtree, explored as the first (and second) thing a pristine process does: state that the
+        library keeps per process (parse caches, interned nodes) is then seen in its initial condition"""
+        m = self._model("quick")
+        return [("pristine", "run_prefix", ("quick", 2, p)) for p in _prefixes(m, 1)]
+
     def _model(self, name):
         if name == "quick":
             return Model(DERIVE, EXEC)
         if name == "narrow":
-            return Model(["Select2", "MD0", "QMD", "SelectAst"], ["Value"])
+            return Model(["Select2", "SelectSame", "MD0", "QMD", "SelectAst"], ["Value"])
         if name == "wide":
             return Model(DERIVE_T, EXEC_T)
         raise ValueError(name)
